@@ -3,6 +3,7 @@
 package c09
 
 import (
+	"encoding/json"
 	"fmt"
 	"net/url"
 	"os"
@@ -118,7 +119,28 @@ func TestVerifC09(t *testing.T) {
 					}
 					c.Note(fmt.Sprintf("genuine entry %s of %s shown as error: %s%s", want[i], owner.ID, wk.StripSGR(gotItems[i].Name()), ev.Trunc(dbg, 900)))
 				default:
-					fail("wrong-item", "entry %d is %s, expected %s", i, got[i], want[i])
+					dbg := ""
+					if owner.Outbox != nil {
+						if dd, ok := g.Doc(owner.Outbox.ID); ok {
+							j, _ := json.Marshal(dd)
+							dbg = "\noutbox document: " + ev.Trunc(string(j), 3000)
+							if items, ok := dd["orderedItems"].([]any); ok && i < len(items) {
+								if addr, ok := items[i].(string); ok {
+									if ad, ok := g.Doc(addr); ok {
+										j, _ := json.Marshal(ad)
+										dbg += "\nentry document: " + ev.Trunc(string(j), 2000)
+										if oa, ok := ad["object"].(string); ok {
+											if od, ok := g.Doc(oa); ok {
+												j, _ := json.Marshal(od)
+												dbg += "\nobject document: " + ev.Trunc(string(j), 2000)
+											}
+										}
+									}
+								}
+							}
+						}
+					}
+					fail("wrong-item", "entry %d is %s, expected %s%s", i, got[i], want[i], dbg)
 					return
 				}
 			}
